@@ -113,6 +113,9 @@ pub mod tiny_lfu;
 pub mod write_batch;
 pub mod write_manager;
 
+#[cfg(feature = "verif")]
+pub mod verif;
+
 pub(crate) mod sharded;
 pub(crate) mod single_flight;
 pub(crate) mod wide_column_cache;
